@@ -8,7 +8,7 @@
 From Coq Require Import QArith Qabs.
 From Coq.Strings Require Import Byte.
 From EsVerif.Common Require Import Base Bytes.
-From EsVerif.C04 Require Import Gen TextModel Spec DecProofs ScanProofs WriteProofs RoundTrip CheckProofs FmtModel FmtProofs AccProofs Exec ExecProofs.
+From EsVerif.C04 Require Import Gen TextModel Spec DecProofs ScanProofs WriteProofs RoundTrip CheckProofs FmtModel FmtProofs AccProofs Exec ExecProofs History ScanSpec CheckComplete NoNewline.
 Open Scope Z_scope.
 
 (* ---- integers: printf %d / scanf %d and the memory image are inverse to each other *)
@@ -206,6 +206,119 @@ Theorem C04_verdict0_recfile : forall d t text out, in_scope d t = true -> v_rec
   text = write_text F_model d t /\ roundtrip_ok t out
   /\ fcontract F_model P_model t /\ kf_leading_ws_after_numeric d t = false.
 Proof. exact verdict0_recfile. Qed.
+
+(* ================================================================== proof-deepening round
+   ---- history: the two operations as a step function over a file system (History.v).  sfile.read takes delimiter,
+   dtype and row count from the STORED header; the reader's fields rebuilt from the byte-order-free type strings are
+   the native fields of the table that was written *)
+Theorem C04_reader_fields_from_header : forall fs : list fld, map fld_of_header (header_dtype fs) = map native_fld fs.
+Proof. exact fld_of_header_native. Qed.
+
+(* frame: a read changes no file; a write changes only its own path *)
+Theorem C04_read_changes_nothing : forall F P fs p, fst (step F P fs (ORead p)) = fs.
+Proof. exact read_changes_nothing. Qed.
+
+Theorem C04_write_changes_only_its_path : forall F P fs p d t q, bytes_eqb p q = false ->
+  fs_get (fst (step F P fs (OWrite p d t))) q = fs_get fs q.
+Proof. exact write_changes_only_its_path. Qed.
+
+(* the answer of a read is determined by the last write to its path alone: whatever the file system held before (same
+   size or not), whatever other paths were written or read in between; it is the single-call model *)
+Theorem C04_read_after_write : forall F P fs0 before p d t between,
+  forallb (fun o => negb (writes_path p o)) between = true ->
+  snd (step F P (run_ops F P (fst (step F P (run_ops F P fs0 before) (OWrite p d t))) between) (ORead p))
+  = OutRead (read_text P d (tdt t) (Z.of_nat (length (trows t))) (write_text F d t)).
+Proof. exact read_after_write. Qed.
+
+Theorem C04_roundtrip_any_history : forall F P fs0 before p d t between,
+  table_ok t -> delim_ok d -> fcontract F P t -> kf_leading_ws_after_numeric d t = false ->
+  forallb (fun o => negb (writes_path p o)) between = true ->
+  exists r, snd (step F P (run_ops F P (fst (step F P (run_ops F P fs0 before) (OWrite p d t))) between) (ORead p)) = OutRead r
+            /\ r = Ok (expected F P t) /\ roundtrip_ok t r.
+Proof. exact roundtrip_any_history. Qed.
+
+(* ---- the scanner on ARBITRARY text (ScanSpec.v): maximal munch, exact acceptance and rejection *)
+Theorem C04_scan_tok_accepts : forall k l t r, scan_tok k l = TOk t r <->
+  l = t ++ r /\ tok_ok k t = true /\ (exists s, steps k Q0 t = Some s /\ match r with [] => True | c :: _ => TextModel.step k s c = None end).
+Proof. exact scan_tok_accepts. Qed.
+
+Theorem C04_scan_tok_rejects : forall k l, (exists r, scan_tok k l = TFail r) <->
+  (exists s t r, run k Q0 l = (s, t, r) /\ accepting s = false).
+Proof. exact scan_tok_rejects. Qed.
+
+(* the empty-field branch of scan_column_values: NaN for floating point, RuntimeError for integers; other garbage and
+   end of file are errors *)
+Theorem C04_empty_field : forall d, delim_ok d -> byte_eqb d space = false -> is_ws d = false -> forall pre r, all_ws pre ->
+  read_num TFloat d (pre ++ d :: r) = Ok (nan_tok, r) /\ read_num TInt d (pre ++ d :: r) = Err ERuntime.
+Proof. intros d Hd Hs Hw pre r Hp. split; [apply empty_field_float|apply empty_field_int]; assumption. Qed.
+
+Theorem C04_garbage_field : forall d, byte_eqb d space = false -> forall k pre c r,
+  all_ws pre -> is_ws c = false -> numchar c = false -> c <> d -> read_num k d (pre ++ c :: r) = Err ERuntime.
+Proof. exact garbage_field. Qed.
+
+Theorem C04_eof_field : forall k d pre, all_ws pre -> read_num k d pre = Err ERuntime.
+Proof. exact eof_field. Qed.
+
+(* fixed-width strings: exactly w bytes, none 0xff; a file that ends inside a string cell is rejected *)
+Theorem C04_take_bytes_spec : forall w l e r, take_bytes w l = Ok (e, r) <->
+  l = e ++ r /\ length e = w /\ Forall (fun b => byte_eqb b xff = false) e.
+Proof. exact take_bytes_spec. Qed.
+
+Theorem C04_take_bytes_truncated : forall w l, (length l < w)%nat -> take_bytes w l = Err ERuntime.
+Proof. exact take_bytes_truncated. Qed.
+
+(* rejections: whatever the text, the reader succeeds or fails with RuntimeError; no other error class *)
+Theorem C04_read_error_class : forall P d fs n l e, read_text P d fs n l = Err e -> e = ERuntime.
+Proof. exact read_text_error_class. Qed.
+
+(* option path nrows= smaller than the file (or the first rows of a larger file): the first k rows come back *)
+Theorem C04_read_first_rows : forall F P d, delim_ok d -> forall t k,
+  table_ok t -> fcontract F P t -> kf_leading_ws_after_numeric d t = false ->
+  (1 <= k <= length (trows t))%nat ->
+  read_text P d (tdt t) (Z.of_nat k) (write_text F d t)
+  = Ok {| tdt := map native_fld (tdt t); trows := firstn k (trows (expected F P t)) |}.
+Proof. exact read_first_rows. Qed.
+
+(* blank tolerance of "<conv> <delim>": blanks before a number and between a number and its non-blank delimiter are skipped *)
+Theorem C04_blank_tolerance : forall k d pre tok mid rest,
+  byte_eqb d space = false -> numchar d = false -> is_ws d = false ->
+  all_ws pre -> all_ws mid -> tok_ok k tok = true ->
+  read_num k d (pre ++ tok ++ mid ++ d :: rest) = Ok (tok, rest).
+Proof. exact blank_tolerance. Qed.
+
+(* the newline behind the last row is not needed: a file that ends right behind the last cell reads the same *)
+Theorem C04_roundtrip_without_final_newline : forall F P d, delim_ok d -> forall t,
+  table_ok t -> fcontract F P t -> kf_leading_ws_after_numeric d t = false ->
+  read_text P d (tdt t) (Z.of_nat (length (trows t))) (removelast (write_text F d t)) = Ok (expected F P t).
+Proof. exact roundtrip_without_final_newline. Qed.
+
+(* ---- the checkers DECIDE the property where no real-number search is involved (CheckComplete.v) *)
+Theorem C04_header_check_iff : forall d t h, header_check d t h = true <-> header_ok d t h.
+Proof. exact header_check_iff. Qed.
+
+Theorem C04_roundtrip_check_iff_float_free : forall tin out, float_free tin = true ->
+  (roundtrip_check tin out = true <-> roundtrip_ok tin out).
+Proof. exact roundtrip_check_iff. Qed.
+
+(* non-vacuity of the new statements: a write, an unrelated write and a read in between, then the read *)
+Example C04_history_example :
+  let F := fun (_ : nat) (e : list byte) => e in
+  let ops := [OWrite [x61] x2c nv_table; OWrite [x62] x3b kf_witness; ORead [x62]] in
+  snd (step F F (run_ops F F [] ops) (ORead [x61])) = OutRead (Ok (expected F F nv_table))
+  /\ float_free kf_witness = true /\ roundtrip_check nv_table (Ok (expected F F nv_table)) = true
+  /\ read_num TFloat x2c [x20; x2c; x35] = Ok (nan_tok, [x35])
+  /\ scan_tok TFloat [x31; x65; x2c] = TOk [x31; x65] [x2c]
+  /\ scan_tok TFloat [x2d; x2c] = TFail [x2c]
+  /\ take_bytes 3 [x61; x62] = Err ERuntime
+  /\ read_num TInt x2c [x20; x37; x20; x20; x2c; x38] = Ok ([x37], [x38])
+  /\ read_text F x2c (tdt kf_witness) 1 (removelast (write_text F x2c kf_witness))
+     = Ok {| tdt := tdt (expected F F kf_witness); trows := firstn 1 (trows (expected F F kf_witness)) |}
+  (* strings may hold any control character except \n and \r: \x0b, \x1c, \x00 do not end a line *)
+  /\ (let t := {| tdt := [ {| fname := [x73]; fkind := KStr 3; forder := NA; fshape := [] |} ];
+                   trows := [ [[[x61; x0b; x1c]]]; [[[x1e; x00; x7f]]] ] |} in
+      table_ok t /\ strings_noeol t /\ count_lines (write_text F x3b t) = 2
+      /\ read_text F x3b (tdt t) 2 (write_text F x3b t) = Ok (expected F F t)).
+Proof. vm_compute. repeat split; reflexivity. Qed.
 
 (* ---- non-vacuity: a table with a blank-leading string BEFORE the numeric cell in white-space mode, and the
    same with ',' and no leading blank, meet the hypotheses; the conclusion computes *)
